@@ -212,7 +212,8 @@ pub fn gen_scope(t: &mut Tape) -> ScopeCase {
     // "used before they are declared with the same result as after", for more links than the resolver has passes
     let mut items = items;
     if crate::engine::gen_version() >= 2 && fault.is_none() && t.chance(1, 8) {
-        let len = t.urange(6, 16);
+        // (v3: up to 30 links - twice the default iteration budget plus the links the main passes could add)
+        let len = if crate::engine::gen_version() >= 3 { t.urange(6, 30) } else { t.urange(6, 16) };
         let mut chain: Vec<Item> = Vec::new();
         for k in 0..len {
             let e = if k + 1 < len { E::Bin(BinOp::Add, Box::new(E::Var(format!("zc{}", k + 1))), Box::new(lit_of(1))) } else { lit_of(t.draw(5) as u64) };
